@@ -415,6 +415,11 @@ func (env *specEnv) resolveModifies(mk string) (ts []modTarget, ok bool) {
 		if sl, isSl := p.typ.Underlying().(*types.Slice); isSl {
 			ts = append(ts, modTarget{u.keyM(sl.Elem()), ""})
 		}
+		if mt, isMap := p.typ.Underlying().(*types.Map); isMap {
+			// a captured map variable: the map object it refers to may be updated
+			ref := u.loadPtr(p, env.st)
+			ts = append(ts, modTarget{u.keyMapDom(mt), ref}, modTarget{u.keyMapVal(mt), ref}, modTarget{u.keyMapLen(), ref})
+		}
 		return ts, true
 	}
 	if strings.HasPrefix(mk, "contents(") && strings.HasSuffix(mk, ")") {
